@@ -213,6 +213,69 @@ def t_string_param_gc(E, allocate):
     E.prove(len(ds.temp_values) == 0, 'temporaries released')
 
 
+class _SeenBody(object):
+    """Body that reports what the parameter variables hold and returns a fresh number."""
+    _pyvc_trusted = True
+    def __init__(self, E, ds, names, result):
+        self.E, self.ds, self.names, self.result = E, ds, names, result
+        self.seen = {}
+    def parse(self, stream):
+        for nm in self.names:
+            self.seen[nm] = list(to_cells(self.ds.scalars._vars[nm]))
+        return self.result
+
+
+def t_arguments_are_variables(E, sigil):
+    """FNA(Y, X) with parameters (X, Y): the arguments are the caller's variables themselves (the expression
+    parser hands over views of their buffers); each parameter must be bound to the VALUE its argument had at
+    the call, also when that argument is a parameter variable."""
+    ds = E.new(memory_mod.DataSegment, 65534, 3429, 128, 3, False)
+    ds.set_buffers(_Prog())
+    ds.values.set_handler(values.FloatErrorHandler(None))
+    vals = ds.values
+    CLS = {b'%': numbers.Integer, b'!': numbers.Single, b'#': numbers.Double}
+    nx, ny = b'X' + sigil, b'Y' + sigil
+    x = E.new(CLS[sigil], E.bytes('x', CLS[sigil].size), vals)
+    y = E.new(CLS[sigil], E.bytes('y', CLS[sigil].size), vals)
+    E.call(ds.scalars.set, nx, x)
+    E.call(ds.scalars.set, ny, y)
+    x0, y0 = snapshot(x), snapshot(y)
+    result = E.new(numbers.Single, E.bytes('result', 4), vals)
+    body = _SeenBody(E, ds, [nx, ny], result)
+    fn = E.new(userfunctions.UserFunction, b'FNA!', Stream(17), [nx, ny], ds, body)
+    # FNA(Y, X): views of the variables, as a variable reference evaluates
+    ay = E.call(ds.scalars.get, ny).value
+    ax = E.call(ds.scalars.get, nx).value
+    r = E.call(fn.evaluate, iter([ay, ax]))
+    E.prove(not r.raised, 'the call succeeds')
+    if r.raised:
+        return
+    E.prove(same_bytes(body.seen[nx], y0), 'during FNA(Y, X) the parameter X holds the caller\'s Y')
+    E.prove(same_bytes(body.seen[ny], x0), 'and the parameter Y holds the caller\'s X (not the X that was just overwritten)')
+    E.prove(same_bytes(cells(E.call(ds.scalars.get, nx).value), x0) and bool(same_bytes(cells(E.call(ds.scalars.get, ny).value), y0)),
+            'afterwards both variables have their old values')
+    E.prove(len(ds.temp_values) == 0, 'temporaries released')
+
+
+def t_failing_argument(E):
+    """An error while the arguments are evaluated leaves nothing registered and no variable changed."""
+    ds = E.new(memory_mod.DataSegment, 65534, 3429, 128, 3, False)
+    ds.set_buffers(_Prog())
+    ds.values.set_handler(values.FloatErrorHandler(None))
+    vals = ds.values
+    x = E.new(numbers.Single, E.bytes('x', 4), vals)
+    E.call(ds.scalars.set, b'X!', x)
+    x0 = snapshot(x)
+    fn = E.new(userfunctions.UserFunction, b'FNA!', Stream(17), [b'X!', b'Y!'], ds, None)
+    a0 = E.new(numbers.Single, E.bytes('a0', 4), vals)
+    bad = E.new(strings.String, None, vals)          # a string where a number is expected: Type mismatch
+    r = E.call(fn.evaluate, iter([a0, bad]))
+    E.prove(r.is_error(BASICError, error.TYPE_MISMATCH), 'a string argument for a numeric parameter: Type mismatch')
+    E.prove(len(ds.temp_values) == 0, 'the arguments evaluated before the failing one are released')
+    E.prove(same_bytes(cells(E.call(ds.scalars.get, b'X!').value), x0), 'no variable changed')
+    E.prove(fn._is_parsing is False, 'the function is not left marked as being evaluated')
+
+
 def t_recursion(E, params):
     ds = E.new(memory_mod.DataSegment, 65534, 3429, 128, 3, False)
     ds.set_buffers(_Prog())
@@ -239,6 +302,9 @@ TASKS = [
          cases=[{'sigil': s, 'preexisting': p} for s in (b'%', b'!', b'#') for p in (True, False)]),
     Task('UserFunction.evaluate (string parameter, collection during the call)', t_string_param_gc,
          cases=[{'allocate': a} for a in (False, True)]),
+    Task('UserFunction.evaluate (arguments are the caller\'s variables)', t_arguments_are_variables,
+         cases=[{'sigil': s} for s in (b'%', b'!', b'#')]),
+    Task('UserFunction.evaluate (failing argument)', t_failing_argument),
     Task('UserFunction.evaluate (recursion)', t_recursion, cases=[{'params': p} for p in ((), (b'X',), (b'X', b'Y%'))]),
 ]
 
